@@ -96,10 +96,17 @@ class GridDictV:
         self.L = z3.Function('L', z3.IntSort(), z3.IntSort())
 
 
-class GridItemsV:
-    """self._grid_values.items() / .keys()"""
-    def __init__(self, gd, pairs):
-        self.gd, self.pairs = gd, pairs
+class GridIterV:
+    """an iterable over the grid dictionary: shape is 'key' | 'list' | 'idx' or a tuple of shapes
+    (keys(), values(), items(), zip(...), enumerate(...), list(...) of those)"""
+    def __init__(self, gd, shape):
+        self.gd, self.shape = gd, shape
+
+
+def grid_iter_of(v):
+    if isinstance(v, GridDictV):
+        return GridIterV(v, 'key')
+    return v if isinstance(v, GridIterV) else None
 
 
 class GridKeyV:
@@ -266,8 +273,9 @@ def feasible(pc, extra=None, timeout_ms=3000):
 class Exec:
     """symbolic execution of one method of the class model `cm` (pyvc.stateframe.ClassModel)"""
 
-    def __init__(self, cm, mname, prefix):
+    def __init__(self, cm, mname, prefix, inline=False):
         self.cm, self.mname, self.prefix = cm, mname, prefix
+        self.inline, self.inline_stack, self.inlined = inline, [], []
         self.mod, self.ci, self.fn = cm.methods[mname]
         self.vcs = []            # VC objects
         self.notes = []
@@ -509,12 +517,36 @@ class Exec:
             lid = 'list%d' % next(_ids)
             return ListV(lid, it.length, elem=el)
         if isinstance(it, RangeV):
+            # generic iteration a of the comprehension; if the element runs the loop over the grid this is the index loop
             n = z3.If(it.stop > it.start, it.stop - it.start, 0)
-            return ListV('list%d' % next(_ids), n, elem=OpaqueV(ast.unparse(e.elt)[:40]))
+            a = fresh_int('a')
+            s2 = st.fork()
+            s2.pc += [a >= 0, a < n]
+            s2.env[e.generators[0].target.id] = it.start + a
+            s2.ghost.update({'i0': it.start + a, 'a': a, 'appends': [], 'range': it})
+            s2.ghost.pop('inner', None)
+            heap_before = dict(s2.heap)
+            r2 = []
+            el = self.eval(e.elt, s2, r2)
+            for cond, cls in r2:
+                if feasible(s2.pc, cond):
+                    raise Unsupported('comprehension element may raise %s' % cls)
+            if set(s2.heap) != set(heap_before) or any(s2.heap[k] is not heap_before[k] for k in heap_before):
+                raise Unsupported('comprehension element assigns attributes of self')
+            lid = 'list%d' % next(_ids)
+            if 'inner' in s2.ghost:
+                outer = {'a': a, 'n_iter': n, 'start': it.start, 'stop': it.stop, 'list': lid, 'len0': z3.IntVal(0), 'iterations': [(s2, el)]}
+                st.ghost['outer'] = outer
+                self.outer = outer
+                return ListV(lid, n, elem=None)
+            return ListV(lid, n, elem=OpaqueV(ast.unparse(e.elt)[:40]))
         if isinstance(it, OpaqueV):
             ln = z3.Int('len[%s]' % it.text)
             return ListV('list%d' % next(_ids), ln, elem=OpaqueV(ast.unparse(e.elt)[:40]))
         raise Unsupported('comprehension over %r' % (it,))
+
+    def e_GeneratorExp(self, e, st, raises):
+        return self.e_ListComp(e, st, raises)     # only consumed by list(...) / tuple(...): same length and order
 
     # ---- calls
     def call_args(self, c, st, raises):
@@ -533,6 +565,9 @@ class Exec:
                 head = head.value
             if isinstance(head, ast.Name) and head.id not in st.env and head.id != self.selfname and head.id in self.mod.imports:
                 return self.call_library(f, c, st, raises)
+            if isinstance(f.value, ast.Name) and f.value.id == self.selfname and self.kind == 'method' and f.attr in self.cm.methods \
+                    and self.inline and f.attr not in self.cm.properties:
+                return self.inline_call(f.attr, c, st, raises)
             if isinstance(f.value, ast.Name) and f.value.id == self.selfname and self.kind == 'method' and f.attr in self.cm.methods:
                 args, kw = self.call_args(c, st, raises)
                 if kw:
@@ -542,6 +577,48 @@ class Exec:
             recv = self.eval(f.value, st, raises)
             return self.call_method(recv, f.attr, c, st, raises)
         raise Unsupported('call %s' % ast.unparse(c)[:80])
+
+    def inline_call(self, mname, c, st, raises):
+        """`self.helper(args)`: the helper's body is executed in place (fresh local environment, shared heap / path / ghost state)"""
+        if mname in self.inline_stack or len(self.inline_stack) >= 4:
+            raise Unsupported('recursive / deeply nested helper call self.%s' % mname)
+        m2, c2, fn = self.cm.methods[mname]
+        decos = [ast.unparse(d) for d in fn.decorator_list]
+        if decos:
+            raise Unsupported('decorated helper %s%s' % (mname, decos))
+        args, kw = self.call_args(c, st, raises)
+        sig = sigbind.sig_of_def(fn, drop_first=True)
+        ok, why, mapping = sigbind.bind(sig, len(args), list(kw))
+        if not ok or sig.vararg or sig.kwarg:
+            raise Unsupported('call of helper %s does not bind: %s' % (mname, why))
+        env = {p: (args[w[1]] if w[0] == 'pos' else kw[w[1]]) for p, w in mapping.items() if isinstance(w, tuple)}
+        a = fn.args
+        pos = list(a.posonlyargs) + list(a.args)
+        dflt = dict(zip([x.arg for x in pos[len(pos) - len(a.defaults):]], a.defaults))
+        dflt.update({x.arg: d for x, d in zip(a.kwonlyargs, a.kw_defaults) if d is not None})
+        for pn, d in dflt.items():
+            if pn not in env:
+                if not isinstance(d, ast.Constant):
+                    raise Unsupported('non-constant default of %s.%s' % (mname, pn))
+                env[pn] = self.e_Constant(d, st, raises)
+        saved = (self.fn, self.selfname, self.kind, self.mod, self.ci)
+        caller_env = st.env
+        st.env = env
+        self.fn, self.selfname, self.kind, self.mod, self.ci = fn, fn.args.args[0].arg, 'method', m2, c2
+        self.inline_stack.append(mname)
+        if mname not in self.inlined:
+            self.inlined.append(mname)
+        try:
+            outs = self.block(fn.body, st)
+        finally:
+            self.fn, self.selfname, self.kind, self.mod, self.ci = saved
+            self.inline_stack.pop()
+            st.env = caller_env
+        if len(outs) != 1 or outs[0][1] not in ('return', 'normal'):
+            raise Unsupported('helper %s has %d paths / raises (exactly one normal path supported): %s' % (mname, len(outs), [k for _, k, _ in outs]))
+        s2, kind, v = outs[0]
+        st.heap, st.pc, st.meta, st.ghost, st.lists = s2.heap, s2.pc, s2.meta, s2.ghost, s2.lists
+        return v if kind == 'return' else NONE
 
     def call_name(self, name, c, st, raises):
         if name == 'len' and len(c.args) == 1:
@@ -555,6 +632,24 @@ class Exec:
             if isinstance(v, OpaqueV):
                 return z3.Int('len[%s]' % v.text)
             raise Unsupported('len of %r' % (v,))
+        if name in ('list', 'tuple', 'iter') and len(c.args) == 1 and not c.keywords:
+            v = self.eval(c.args[0], st, raises)
+            gi = grid_iter_of(v)
+            if gi is not None:
+                return gi
+            if isinstance(v, ListV):
+                return v
+            raise Unsupported('%s of %r' % (name, v))
+        if name == 'zip' and len(c.args) >= 2 and not c.keywords:
+            gis = [grid_iter_of(self.eval(a, st, raises)) for a in c.args]
+            if all(g is not None for g in gis) and all(g.gd is gis[0].gd for g in gis):
+                return GridIterV(gis[0].gd, tuple(g.shape for g in gis))
+            raise Unsupported('zip over %s' % ast.unparse(c)[:80])
+        if name == 'enumerate' and len(c.args) == 1 and not c.keywords:
+            gi = grid_iter_of(self.eval(c.args[0], st, raises))
+            if gi is not None:
+                return GridIterV(gi.gd, ('idx', gi.shape))
+            raise Unsupported('enumerate over %s' % ast.unparse(c)[:80])
         if name == 'range':
             args, _ = self.call_args(c, st, raises)
             args = [self.opt_as_int(x, raises) for x in args]
@@ -635,8 +730,8 @@ class Exec:
         return OpaqueV(ast.unparse(c)[:80])
 
     def call_method(self, recv, name, c, st, raises):
-        if isinstance(recv, GridDictV) and name in ('items', 'keys') and not c.args and not c.keywords:
-            return GridItemsV(recv, name == 'items')
+        if isinstance(recv, GridDictV) and name in ('items', 'keys', 'values') and not c.args and not c.keywords:
+            return GridIterV(recv, {'items': ('key', 'list'), 'keys': 'key', 'values': 'list'}[name])
         if isinstance(recv, MetaV):
             if name in ('ns',) and len(c.args) == 1:
                 k = self.eval(c.args[0], st, raises)
@@ -856,10 +951,9 @@ class Exec:
         self.loop_ordinal += 1
         if isinstance(it, RangeV):
             return outs + self.loop_range(s, it, n, ordinal)
-        if isinstance(it, GridDictV):
-            return outs + self.loop_grid(s, it, n, ordinal)
-        if isinstance(it, GridItemsV):
-            return outs + self.loop_grid(s, it.gd, n, ordinal, pairs=it.pairs)
+        gi = grid_iter_of(it)
+        if gi is not None:
+            return outs + self.loop_grid(s, gi.gd, n, ordinal, shape=gi.shape)
         if isinstance(it, OpaqueV):
             return outs + self.loop_opaque(s, it, n, ordinal)
         raise Unsupported('loop over %r' % (it,))
@@ -938,18 +1032,27 @@ class Exec:
                 post.env.pop(n, None)
         return [(post, 'normal', None)]
 
-    def loop_grid(self, s, gd, st, ordinal, pairs=False):
+    @staticmethod
+    def bind_grid_target(target, shape, gd, j, env):
+        """binds the loop target to the j-th key / value list / position according to the iterable's shape; -> bound names"""
+        if isinstance(shape, tuple):
+            if not isinstance(target, (ast.Tuple, ast.List)) or len(target.elts) != len(shape):
+                raise Unsupported('loop target %s does not match the iterable over the grid' % ast.unparse(target))
+            out = []
+            for t, sh in zip(target.elts, shape):
+                out += Exec.bind_grid_target(t, sh, gd, j, env)
+            return out
+        if not isinstance(target, ast.Name):
+            raise Unsupported('loop target %s' % ast.unparse(target))
+        if env is not None:
+            env[target.id] = {'key': GridKeyV(gd, j), 'list': GridListV(gd, j), 'idx': j}[shape]
+        return [target.id]
+
+    def loop_grid(self, s, gd, st, ordinal, shape='key'):
         """`for key in self._grid_values`: invariant index = t*W + val, 0 <= val < W, W = product of the radices seen."""
         if 'i0' not in st.ghost:
-            raise Unsupported('the loop over the grid is not nested in a loop over range(...) of indices')
-        if pairs:
-            if not (isinstance(s.target, ast.Tuple) and len(s.target.elts) == 2 and all(isinstance(x, ast.Name) for x in s.target.elts)):
-                raise Unsupported('grid items() loop target')
-            targets = [x.id for x in s.target.elts]
-        elif isinstance(s.target, ast.Name):
-            targets = [s.target.id]
-        else:
-            raise Unsupported('grid loop target')
+            raise Unsupported('the loop over the grid is not reached from a loop / comprehension over range(...) of indices')
+        targets = self.bind_grid_target(s.target, shape, gd, None, None)
         names, heap = self.assigned_in(s.body)
         if heap:
             raise Unsupported('attributes %s assigned inside the grid loop' % sorted(heap))
@@ -985,9 +1088,7 @@ class Exec:
         b = st.fork()
         b.pc += [j >= 0, j < gd.n, L(j) >= 1] + inv(j, t, pd)
         b.env[tname], b.env[pdname] = t, pd
-        b.env[targets[0]] = GridKeyV(gd, j)
-        if pairs:
-            b.env[targets[1]] = GridListV(gd, j)
+        self.bind_grid_target(s.target, shape, gd, j, b.env)
         b.ghost['stores'] = []
         n_before = len(self.vcs)
         outs = self.block(s.body, b)
@@ -1086,7 +1187,7 @@ def _param_values(ex, st, skip=1):
 
 def vcs_suggest(cm):
     """-> (vcs, structural results [(name, ok, detail)], info)"""
-    ex = Exec(cm, 'suggest', 'C13.grid.suggest')
+    ex = Exec(cm, 'suggest', 'C13.grid.suggest', inline=True)
     st = State()
     cur = z3.Int('current_index')
     gd = GridDictV(ATTR_GRID)
@@ -1111,7 +1212,9 @@ def vcs_suggest(cm):
             raise Unsupported('suggest has a returning path that does not run the loop over range(...) of indices')
         if all(o is not x for x in outers):
             outers.append(o)
-        ok = isinstance(v, ListV) and isinstance(v.elem, SuggestionV) and isinstance(v.elem.params, ElemV) and v.elem.params.lid == o['list']
+        # (A) [TrialSuggestion(parameters=p) for p in <index-loop list>]   (B) the index-loop list itself, its elements being suggestions
+        ok = isinstance(v, ListV) and ((isinstance(v.elem, SuggestionV) and isinstance(v.elem.params, ElemV) and v.elem.params.lid == o['list'])
+                                       or (v.lid == o['list'] and all(isinstance(x, SuggestionV) for _, x in o['iterations'])))
         structural.append(('C13.grid.suggest.returns_all', True if ok else None,
                            'the returned list wraps, in order, every parameter dict appended by the index loop' if ok else
                            'the return value is not of the supported shape `[TrialSuggestion(parameters=p) for p in <the list filled by the loop>]`: %r' % (v,)))
@@ -1131,6 +1234,8 @@ def vcs_suggest(cm):
         if inner is None:
             raise Unsupported('no loop over the grid dictionary inside the index loop')
         pd = inner['pd']
+        if isinstance(appended, SuggestionV):
+            appended = appended.params
         if not isinstance(appended, ParamDictV):
             raise Unsupported('the appended element is not the parameter dict')
         k = inner['k']
@@ -1146,7 +1251,7 @@ def vcs_suggest(cm):
         ex.vcs.append(VC('C13.grid.suggest.post.mixed_radix', s2.pc, goal,
                          'the a-th suggestion has index i = _current_index + a; its digit vector d satisfies 0 <= d_k < L_k for every parameter and '
                          'sum_k d_k*W_k = i mod N (i = q*N + val, 0 <= val < N): it is the mixed-radix representation of i mod N'))
-    return ex.vcs, structural, {'executor': ex}
+    return ex.vcs, structural, {'executor': ex, 'inlined': list(ex.inlined)}
 
 
 def vcs_lemmas():
